@@ -43,8 +43,9 @@ func main() {
 		}
 		b := batching.NewEventBatcher[int](ctx, batching.EventBatcherParams{MaxDelay: delay, MaxSize: maxSize, Timer: tm})
 		next, lastTok := 1, 0
+		var inflight []func()
 		for i := 0; i < ops; i++ {
-			switch k := rng.Intn(10); {
+			switch k := rng.Intn(11); {
 			case k < 4:
 				b.Add(next)
 				events = append(events, map[string]any{"op": "Add", "item": next})
@@ -61,13 +62,21 @@ func main() {
 					lastTok++
 				}
 				events = append(events, map[string]any{"op": "Flush", "tok": tok, "res": got})
-			default:
+			case k < 9:
+				// the timer goes off: its callback is dispatched now and runs later
 				if tm.do == nil {
-					events = append(events, map[string]any{"op": "NoFire"})
+					events = append(events, map[string]any{"op": "NoExpire"})
 					break
 				}
-				do := tm.do
+				inflight = append(inflight, tm.do)
 				tm.do = nil
+				events = append(events, map[string]any{"op": "Expire"})
+			default:
+				if len(inflight) == 0 {
+					break
+				}
+				do := inflight[0]
+				inflight = inflight[1:]
 				go do()
 				select {
 				case tok := <-b.BatchTimedOut:
